@@ -98,7 +98,8 @@ structure Subscriber where
   blocked : Option Resp := none   -- the response inside a gated `Send`
   queue : List (Item × Nat) := []
   closed : Bool := false          -- queue closed (ONCE after the walk)
-  out : List Resp := []           -- responses delivered since the last drain
+  out : List (Resp × Bool) := []  -- responses delivered since the last drain (flag: sent while a gate
+                                  -- had been shut since the last drain — its dup count is deterministic)
 deriving Repr, Inhabited
 
 structure State where
@@ -193,7 +194,7 @@ def pump : Nat → Subscriber → Subscriber
         if denied then pump fuel s
         else if s.gateShut then { s with blocked := some r }
         else
-          let s := { s with out := s.out ++ [r] }
+          let s := { s with out := s.out ++ [(r, s.gatedSinceDrain)] }
           if isTargetDelete r && s.req.target != "*" then { s with alive := false, status := some .ok }
           else pump fuel s
 
@@ -276,15 +277,15 @@ def setGate (st : State) (id : String) (shut : Bool) : State :=
       let s := { s with gateShut := false }
       let s := match s.blocked with
         | some r =>
-          let s := { s with blocked := none, out := s.out ++ [r] }
+          let s := { s with blocked := none, out := s.out ++ [(r, s.gatedSinceDrain)] }
           if isTargetDelete r && s.req.target != "*" then { s with alive := false, status := some .ok } else s
         | none => s
       pumpAll s)
 
-/-- the send timeout fires while a send is blocked -/
-def expire (st : State) (id : String) : State :=
-  updateSub st id (fun s =>
-    if s.alive ∧ s.blocked.isSome then { s with alive := false, status := some .unknown } else s)
+/-- the send timeout elapses: every subscriber with a blocked send ends with an error -/
+def expire (st : State) : State :=
+  { st with subs := st.subs.map (fun s =>
+      if s.alive ∧ s.blocked.isSome then { s with alive := false, status := some .unknown } else s) }
 
 end Sub
 end Gnmi
